@@ -579,6 +579,10 @@ func r015(c *Ctx) {
 			fmt.Sprintf("status codes for which success is reported: [%s,%s]; must be exactly [200,299]", boundStr(lo), boundStr(hi)))
 	}
 	c.ob(rule, "check/reports-success-somewhere", fn.Pos(), nTrue >= 1, false, "")
+	// the configured probe timeout / interval reach the right slots
+	nhc := c.fn("NewHealthCheck")
+	c.argsFromFields(rule, nhc, map[string]string{"interval": "Interval", "timeout": "Timeout"})
+	c.paramsToFields(rule, nhc, "HealthCheck", map[string]string{"interval": "interval", "timeout": "timeout", "consumer": "consumer", "endpoint": "endpoint"})
 	// the request is bounded by context.WithTimeout(hc.ctx, hc.timeout)
 	ctxF, toF := c.field("HealthCheck", "ctx"), c.field("HealthCheck", "timeout")
 	var wt *ssa.Call
@@ -599,6 +603,53 @@ func r015(c *Ctx) {
 			}
 		}
 		c.ob(rule, "check/request-uses-timeout-context", wt.Pos(), ok, true, "the request passed to Do must be built with that timeout context")
+	}
+}
+
+// argsFromFields: at every call of callee in fn, the argument for each named
+// parameter must be a load of the field with the given name (guards against
+// swapping same-typed arguments, which compiles).
+func (c *Ctx) argsFromFields(rule string, callee *ssa.Function, want map[string]string) {
+	n := 0
+	for _, u := range c.usesOfFunc(callee) {
+		call, ok := u.instr.(ssa.CallInstruction)
+		if !ok || u.kind == "value" {
+			continue
+		}
+		n++
+		for i, p := range callee.Params {
+			fieldName, ok := want[p.Name()]
+			if !ok {
+				continue
+			}
+			chain, _ := fieldPath(resolve(call.Common().Args[i]))
+			got := "<not a field>"
+			if len(chain) > 0 {
+				got = chain[len(chain)-1].Name()
+			}
+			c.ob(rule, fmt.Sprintf("%s(%s:) in %s", callee.Name(), p.Name(), fname(outer(u.in))), u.instr.Pos(), got == fieldName, true,
+				fmt.Sprintf("parameter %q must be fed from field %q, got %q", p.Name(), fieldName, got))
+		}
+	}
+	c.ob(rule, callee.Name()+"/has-call-site", callee.Pos(), n >= 1, false, "")
+}
+
+// paramsToFields: in constructor fn, the composite literal's field must be initialised from the parameter of the given name.
+func (c *Ctx) paramsToFields(rule string, fn *ssa.Function, typ string, want map[string]string) {
+	for field, param := range want {
+		fv := c.field(typ, field)
+		ok := false
+		for _, w := range c.writesOfField(fv) {
+			if w.fn != fn {
+				continue
+			}
+			for _, p := range fn.Params {
+				if p.Name() == param && resolve(w.val) == ssa.Value(p) {
+					ok = true
+				}
+			}
+		}
+		c.ob(rule, fmt.Sprintf("%s/%s.%s<-param %s", fn.Name(), typ, field, param), fn.Pos(), ok, true, "constructor must initialise the field from the like-named parameter")
 	}
 }
 
